@@ -417,8 +417,9 @@ class SymInt(object):
         x & ((1 << x.bit_length()) - 1) - which is x - is recognised (Bits(int) sizes itself that way)"""
         if self.lo < 0:
             raise Leak('bit_length of maybe-negative symbolic')
-        if self.w > MAXSHIFT_CASES:
-            # wide value: an ite-chain with hundreds of arms helps nobody - fork on the length (at most w+1 paths)
+        if self.w > MAXBL_SYMBOLIC:
+            # wider than a machine word: fork on the length, longest first (at most w+1 paths); data-dependent vector sizes
+            # then stay concrete downstream
             for k in range(self.w, 0, -1):
                 if self >= (1 << (k - 1)):
                     return k
@@ -623,6 +624,7 @@ def _bw(kind, a, b):
 
 
 MAXSHIFT_CASES = 130
+MAXBL_SYMBOLIC = 64
 
 
 def _shl(a, n):
